@@ -119,6 +119,11 @@ func execClearsign(vec J, out *Writer) {
 	ringNames := []interface{}{}
 	if kr, ok := vec["keyring"]; ok && kr != nil {
 		el := keyring(L(kr))
+		if form, ok := vec["ring_form"]; ok && form == "nil-slice" && len(el) == 0 {
+			// what `var kr openpgp.EntityList` or ReadKeyRing of an empty file gives: still a supplied, empty keyring
+			var none openpgp.EntityList
+			el = none
+		}
 		ring = &el
 		ringNames = L(kr)
 	}
@@ -164,9 +169,9 @@ func execClearsign(vec J, out *Writer) {
 	}
 	out.Put(J{"ev": "cs", "in": vec, "signed_by": signedBy, "keyring_nil": ring == nil, "keyring": ringNames,
 		"armor_start": bytes.HasPrefix(b, []byte("-----BEGIN PGP ")),
-		"decodes": now.decodes, "canon_same": now.decodes && orig.decodes && bytes.Equal(now.canon, orig.canon),
+		"decodes":     now.decodes, "canon_same": now.decodes && orig.decodes && bytes.Equal(now.canon, orig.canon),
 		"sigpkt_same": now.decodes && orig.decodes && bytes.Equal(now.sigpkt, orig.sigpkt) && len(now.sigpkt) > 0,
-		"len": len(b), "obs": obs, "foreign_in_all": hasForeign("paras"), "foreign_in_next": hasForeign("next_paras")})
+		"len":         len(b), "obs": obs, "foreign_in_all": hasForeign("paras"), "foreign_in_next": hasForeign("next_paras")})
 }
 
 func min(a, b int) int {
